@@ -194,6 +194,17 @@ def run_case(case):
         # (1) construction, both styles
         phi = make_var(m, g, spec, vals, style, rng, 'bc-passed')
         ghosts(phi, 'constructor')
+        # "for whatever arrays a, b, c were set": the coefficients the variable holds are the ones that were set (directly or through
+        # fixedValue / fixedGradient(scale_coeffs=) / newtonCooling(reverse_direction=))
+        for sd_, v_ in spec['sides'].items():
+            f_ = getattr(phi.BCs, sd_)
+            for nm_ in ('a', 'b', 'c'):
+                got_ = np.asarray(getattr(f_, nm_), dtype=float)
+                if got_.size != v_[nm_].size or not np.array_equal(got_.reshape(v_[nm_].shape), v_[nm_]):
+                    bad.append(('coefficients-not-as-set', 'side %s: coefficient %s is %r after %s, expected %r' % (
+                        sd_, nm_, to_list(got_.ravel()[:3]), (v_.get('util') or ('a/b/c assignment',))[0], to_list(v_[nm_].ravel()[:3]))))
+            if v_.get('util'):
+                cov['bc_via:' + v_['util'][0]] = cov.get('bc_via:' + v_['util'][0], 0) + 1
         phi2 = make_var(m, g, spec, vals, style, rng, 'bc-edited')
         ghosts(phi2, 'apply_BCs')
         cp = phi.copy()
@@ -305,7 +316,7 @@ def run_case(case):
             lam = float(rng.choice([-3.0, 1e-6, 1e6, 0.37, -1.0]))
             k = int(rng.integers(0, g.nd))
             side = SIDES[k][int(rng.integers(0, 2))]
-            spec2 = {'periodic': spec['periodic'], 'sides': {s: dict(v) for s, v in spec['sides'].items()}}
+            spec2 = {'periodic': spec['periodic'], 'sides': {s: {k_: x_ for k_, x_ in v.items() if k_ != 'util'} for s, v in spec['sides'].items()}}
             for nm in ('a', 'b', 'c'):
                 spec2['sides'][side][nm] = spec['sides'][side][nm] * lam
             p1 = make_var(m, g, spec, vals, 'both', rng, 'bc-passed')
@@ -340,7 +351,7 @@ def run_case(case):
         return {'verdict': 'violated', 'mech': mech, 'key': key, 'cov': cov, 'maxerr': maxerr, 'nontrivial': True,
                 'msg': '; '.join(b[1] for b in (unknown or bad))[:700],
                 'witness': {'cls': cls, 'faces': [to_list(f) for f in faces], 'periodic': spec['periodic'], 'style': style,
-                            'sides': {s: {k: to_list(v) if k != 'kind' else v for k, v in d.items()} for s, d in spec['sides'].items()},
+                            'sides': {s: {k: (to_list(v) if k in ('a', 'b', 'c') else (v if k == 'kind' else repr(v))) for k, v in d.items()} for s, d in spec['sides'].items()},
                             'values': to_list(vals)},
                 'sample': sample}
     return {'verdict': 'held', 'key': key, 'cov': cov, 'maxerr': maxerr, 'nontrivial': ffam != 'const', 'sample': sample}
@@ -381,7 +392,7 @@ def floors(agg, tier):
     for cls in CLASSES:
         if agg['cov'].get('cases:' + cls, 0) < 6:
             out.append('cases:%s < 6' % cls)
-    for k, need in (('op:constructor', 100), ('op:apply_BCs', 100), ('op:original-after-copy-edit', 100), ('op:apply_BCs-after-untracked-edit', 100), ('op:solvePDE', 80), ('op:solveExplicitPDE', 80),
+    for k, need in (('bc_via:fixedValue', 30), ('bc_via:fixedGradient', 30), ('bc_via:newtonCooling', 30), ('op:constructor', 100), ('op:apply_BCs', 100), ('op:original-after-copy-edit', 100), ('op:apply_BCs-after-untracked-edit', 100), ('op:solvePDE', 80), ('op:solveExplicitPDE', 80),
                     ('robin_faces', 1000), ('wrap_faces', 200), ('rows-robin', 500), ('scale_invariance', 80), ('plotprofile_faces', 500), ('interior_consistency', 150),
                     ('valdtype:int64', 10), ('valdtype:bool', 10), ('geo:int', 10), ('geo:jitter', 8), ('geo:nano', 5), ('geo:thinend', 10), ('geo:offset', 8), ('no_precalc_round1', 80), ('no_precalc_round2', 40), ('no_precalc_round3', 40), ('side_edit:left', 5), ('side_edit:right', 5), ('side_edit:bottom', 5), ('side_edit:top', 5), ('side_edit:back', 3), ('side_edit:front', 3)):
         if agg['cov'].get(k, 0) < need:
